@@ -214,6 +214,13 @@ func (s *VerifStore) Tick() error {
 	}
 }
 
+// Alive reports whether the store's file is still open (close() stops the
+// flusher goroutine before closing the file).
+func (s *VerifStore) Alive() bool {
+	_, err := s.fs.file.Stat()
+	return err == nil
+}
+
 // Flush runs flushPages on the calling goroutine.
 func (s *VerifStore) Flush() error { return s.fs.flushPages() }
 
